@@ -28,6 +28,9 @@ type c19Case struct {
 	Call    string                     `json:"call"`     // dial | dialandsend
 	BadCert bool                       `json:"bad_cert"` // server presents a certificate of an untrusted CA
 	NMsgs   int                        `json:"nmsgs"`
+	// CancelAt: the caller's context is cancelled while the client waits for the (positive, 40 ms late)
+	// reply of that step of the dial dialogue; whatever the call returns, no connection stays open.
+	CancelAt string `json:"cancel_at,omitempty"`
 }
 
 var (
@@ -50,11 +53,26 @@ func untrustedServerTLS() *tls.Config {
 }
 
 func c19Exec(c *c19Case) (d *refsmtp.Dialer, callErr error, res callResult, closedBefore []bool, hv *core.Violation) {
-	srv := refsmtp.NewServer(refsmtp.Script{Caps: c.Caps, Steps: c.Steps, NoGreetProbe: true})
+	steps := c.Steps
+	ctx := context.Background()
+	var cancel context.CancelFunc
+	if c.CancelAt != "" {
+		steps = map[string]refsmtp.Outcome{}
+		for k, v := range c.Steps {
+			steps[k] = v
+		}
+		steps[c.CancelAt] = refsmtp.Outcome{Kind: "late", DelayMS: 40}
+		ctx, cancel = context.WithCancel(ctx)
+		defer cancel()
+	}
+	srv := refsmtp.NewServer(refsmtp.Script{Caps: c.Caps, Steps: steps, NoGreetProbe: true})
 	srv.Auth = c05Auth
 	srv.TLS = serverTLS(0)
 	if c.BadCert {
 		srv.TLS = untrustedServerTLS()
+	}
+	if cancel != nil {
+		srv.LateHook = func(string) { cancel() }
 	}
 	d = &refsmtp.Dialer{Srv: srv}
 	cl, err := mail.NewClient(refHost, c.Cfg.options(d)...)
@@ -67,10 +85,10 @@ func c19Exec(c *c19Case) (d *refsmtp.Dialer, callErr error, res callResult, clos
 	}
 	res = watchdog(20*time.Second, d, func() error {
 		if c.Call == "dialandsend" {
-			callErr = cl.DialAndSendWithContext(context.Background(), msgs...)
+			callErr = cl.DialAndSendWithContext(ctx, msgs...)
 			return nil
 		}
-		if callErr = cl.DialWithContext(context.Background()); callErr != nil {
+		if callErr = cl.DialWithContext(ctx); callErr != nil {
 			return nil
 		}
 		// an established connection is closed by the caller; a failing QUIT must still close it
@@ -117,9 +135,9 @@ func c19Run(c c19Case) []*core.Violation {
 		keys = append(keys, k+"="+o.Kind+fmt.Sprint(o.Code/100))
 	}
 	sort.Strings(keys)
-	injected := len(keys) > 0 || c.BadCert || callErr != nil
+	injected := len(keys) > 0 || c.BadCert || callErr != nil || c.CancelAt != ""
 	if injected {
-		rec.NonTrivial(core.Join(c.Cfg.TLS, c.Cfg.Auth, strings.Join(c.Caps, ","), strings.Join(keys, ","), c.Call, c.BadCert, c.NMsgs))
+		rec.NonTrivial(core.Join(c.Cfg.TLS, c.Cfg.Auth, strings.Join(c.Caps, ","), strings.Join(keys, ","), c.Call, c.BadCert, c.NMsgs, c.CancelAt))
 		rec.Sample(c.Cfg.TLS+"/"+c.Cfg.Auth+"/"+c.Call, map[string]interface{}{"tls": c.Cfg.TLS, "auth": c.Cfg.Auth, "caps": c.Caps, "faults": keys, "bad_cert": c.BadCert, "call": c.Call, "error": fmt.Sprint(callErr)})
 	}
 	if callErr != nil {
@@ -164,7 +182,7 @@ func c19Configs() []c19Case {
 
 func c19Describe() {
 	rec := core.Rec("C19")
-	rec.Rule = "TestC19Enum: for every combination of TLS policy {none, opportunistic, mandatory} x auth {none, PLAIN-NOENC, LOGIN-NOENC, CRAM-MD5, XOAUTH2, SCRAM-SHA-256 (server rejects), AUTODISCOVER} x call {DialWithContext then Close, DialAndSend} x capability variant {STARTTLS+AUTH, no STARTTLS, no AUTH, foreign mechanism only} (+ untrusted server certificate for the TLS policies), the fault-free dialogue is recorded and EVERY step id in it is answered with each of {4yz, 5yz, drop, garbage}. " +
+	rec.Rule = "TestC19Enum: for every combination of TLS policy {none, opportunistic, mandatory} x auth {none, PLAIN-NOENC, LOGIN-NOENC, CRAM-MD5, XOAUTH2, SCRAM-SHA-256 (server rejects), AUTODISCOVER} x call {DialWithContext then Close, DialAndSend} x capability variant {STARTTLS+AUTH, no STARTTLS, no AUTH, foreign mechanism only} (+ untrusted server certificate for the TLS policies), the fault-free dialogue is recorded and EVERY step id in it is answered with each of {4yz, 5yz, drop, garbage}; and at every EHLO/STARTTLS/AUTH/NOOP step the caller's context is cancelled while the client waits for the (positive, 40 ms late) reply. " +
 		"TestC19: rapid draws configurations with 0..3 faults at drawn steps and 1..2 messages. " +
 		"TestC19TCP: real TCP with the library's DEFAULT dialers (net.Dialer; tls.Dialer for implicit TLS), implicit TLS and STARTTLS x auth {none, PLAIN, CRAM-MD5} x every step answered 554/451/garbage, plus handshakes that fail after the TCP connect succeeded (certificate of an unknown CA, certificate for another name, a plain-text speaker on the implicit-TLS port); oracle there: the server sees every connection end within 2 s of the call's return, with the garbage collector switched off. " +
 		"Oracle: connections are handed out through WithDialContextFunc as tracking net.Conns; when the call returned an error after a connection was opened, Close must have been called on it by the time the call returned; a successful DialAndSend sent QUIT and closed the connection; a connection closed by the caller (Client.Close) is closed even when QUIT fails. " +
@@ -210,6 +228,15 @@ func TestC19Enum(t *testing.T) {
 					t.Fatalf("VIOLATION-DETAIL property=C19 %s", v)
 				}
 			}
+			// the caller's context is cancelled while the client waits for the (positive) reply of this step
+			if strings.HasPrefix(st, "ehlo#") || st == "starttls" || strings.HasPrefix(st, "auth#") || strings.HasPrefix(st, "noop#") {
+				c := base
+				c.CancelAt = st
+				core.Rec("C19").AddExtra("enumerated_cancellation_points", 1)
+				if v := p.RunOne(c); v != nil {
+					t.Fatalf("VIOLATION-DETAIL property=C19 %s", v)
+				}
+			}
 		}
 	}
 	core.Rec("C19").Exhaustive = true
@@ -224,6 +251,9 @@ func c19Gen(t *rapid.T) c19Case {
 	c.Steps = map[string]refsmtp.Outcome{}
 	for i := 0; i < n; i++ {
 		c.Steps[rapid.SampledFrom(steps).Draw(t, "step")] = rapid.SampledFrom(append(c19Outcomes, refsmtp.Outcome{Kind: "dropafter", Code: 421, Text: "bye"})).Draw(t, "outcome")
+	}
+	if rapid.IntRange(0, 4).Draw(t, "cancel") == 0 {
+		c.CancelAt = rapid.SampledFrom([]string{"ehlo#1", "starttls", "ehlo#2", "auth#1", "noop#1"}).Draw(t, "cancelat")
 	}
 	return c
 }
